@@ -153,7 +153,7 @@ func (w *Worker) push(s *State) {
 }
 
 func loadEngine(repo string, ov map[string][]byte) (*Engine, error) {
-	e := &Engine{repoDir: repo, concCap: 300, divergeBound: 20000}
+	e := &Engine{repoDir: repo, concCap: 300, divergeBound: 400000}
 	cfg := &packages.Config{
 		Mode:    packages.LoadAllSyntax,
 		Dir:     repo,
